@@ -95,6 +95,13 @@ pub fn run_ops_opt(lines: &[String], store: bool) -> Report {
                 }
                 _ => "bad-op".to_string(),
             },
+            ["unsyn", k] => match k.parse::<u32>() {
+                Ok(k) => {
+                    unset_static(k);
+                    "ok".to_string()
+                }
+                _ => "bad-op".to_string(),
+            },
             ["cfg", "mask", m] => match m.parse::<u32>() {
                 Ok(m) => {
                     cstree::verif::set_hash_mask(m);
